@@ -236,6 +236,43 @@ pub fn gen_prot_with(g: &mut Gen, ctx: &mut Ctx, content: Option<Item>) -> Resul
         ctx.class("protected:built-around-received-counter-signatures");
         return Ok(Prot { value: ProtectedHeader { original_data: None, header: h.clone() }, p, built: Some(h), flavour: "built-around-received-countersig" });
     }
+    if g.ratio(1, 20) {
+        // a header built through the public fields whose extras name a typed parameter that is *vacant*
+        // (`rest: [(5, iv)]` instead of `iv: ..`): a legal map all the same, typed entries first
+        let mut h = Header::default();
+        let mut entries: Vec<(Item, Item)> = vec![];
+        if g.bool() {
+            h.alg = Some(coset::Algorithm::Assigned(coset::iana::Algorithm::ES256));
+            entries.push((Item::Int(1), Item::Int(-7)));
+        }
+        if g.bool() {
+            h.key_id = g.nonempty_bytes();
+            entries.push((Item::Int(4), Item::Bytes(h.key_id.clone())));
+        }
+        let iv_set = g.ratio(1, 3);
+        if iv_set {
+            h.iv = g.nonempty_bytes();
+            entries.push((Item::Int(5), Item::Bytes(h.iv.clone())));
+        }
+        let vacant: Vec<i64> = [1i64, 2, 3, 4, 5, 6].into_iter().filter(|l| !entries.iter().any(|(k, _)| k == &Item::Int(*l as i128)) && !(iv_set && *l == 6)).collect();
+        let l = vacant[g.below(vacant.len())];
+        let b = g.nonempty_bytes();
+        let (v, vi) = match l {
+            1 => (coset::cbor::value::Value::from(-35), Item::Int(-35)),
+            2 => (coset::cbor::value::Value::Array(vec![coset::cbor::value::Value::from(4)]), Item::Array(vec![Item::Int(4)])),
+            3 => (coset::cbor::value::Value::from(60), Item::Int(60)),
+            _ => (coset::cbor::value::Value::Bytes(b.clone()), Item::Bytes(b)),
+        };
+        h.rest.push((coset::Label::Int(l), v));
+        entries.push((Item::Int(l as i128), vi));
+        if g.bool() {
+            h.rest.push((coset::Label::Int(900), coset::cbor::value::Value::Null));
+            entries.push((Item::Int(900), Item::Null));
+        }
+        let p = crate::cbor::encode(&Item::Map(entries));
+        ctx.class("protected:built-with-a-vacant-typed-label-among-extras");
+        return Ok(Prot { value: ProtectedHeader { original_data: None, header: h.clone() }, p, built: Some(h), flavour: "built-typed-label-in-extras" });
+    }
     let flavour = match &content {
         None => g.weighted(&[4, 2, 0]),
         Some(_) => g.weighted(&[4, 0, 4]),
@@ -577,7 +614,9 @@ macro_rules! builder_with_headers {
 /// fields are edited afterwards, the structures follow the edit (nothing was received, so there are
 /// no bytes to prefer).  Edits the header in place and returns the bytes it now contributes.
 pub fn edit_built_protected(g: &mut Gen, p: &mut coset::ProtectedHeader) -> Result<Vec<u8>, String> {
-    match g.below(3) {
+    // (an edit that keeps the header encodable: no typed field is populated whose label the extras hold)
+    let typed_in_rest = p.header.rest.iter().any(|(l, _)| matches!(l, coset::Label::Int(i) if (1..=7).contains(i)));
+    match if typed_in_rest { 1 } else { g.below(3) } {
         0 => p.header.key_id = [p.header.key_id.clone(), g.nonempty_bytes()].concat(),
         1 => p.header.rest.push((coset::Label::Int(77_000 + g.range_i64(0, 99)), coset::cbor::value::Value::from(g.range_i64(-9, 9)))),
         _ => p.header.alg = Some(coset::Algorithm::Assigned(if p.header.alg == Some(coset::Algorithm::Assigned(coset::iana::Algorithm::ES256)) { coset::iana::Algorithm::ES384 } else { coset::iana::Algorithm::ES256 })),
